@@ -11,6 +11,7 @@ import CijProofs.Lemmas.NonShearSource
 import Generated.AdapterSpec
 import CijProofs.Lemmas.ShearSource
 import CijProofs.Lemmas.TasksSource
+import CijProofs.Lemmas.QhaGlueSource
 
 namespace Cij.C02
 
@@ -205,6 +206,127 @@ theorem qha_adapter_fields_are_source :
     (∀ a ∈ tvFields, a ∉ tpFields) ∧
     Generated.qhaReadInputCanonical = true := by
   decide +kernel
+
+/-! #### the glue IS the source: `cij/core/qha_adapter.py` and `cij/util/units.py` translated completely (tools/gens/qha_src.py →
+Generated/QhaGlue.lean; meaning in CijModel/QhaGlue.lean, lemmas in Lemmas/QhaGlueSource.lean).  Which C_V, which pressure, on which
+grid, in which units the gap T·V·(∂P/∂T)²/(9 e_i e_j C_V) is evaluated — re-read from the files on every run. -/
+
+open Cij.QhaGlue in
+/-- **inventory**: all 38 defs of qha_adapter.py and all 10 defs of units.py are translated as data (every statement inside the
+grammar; `desired_pressure_status` by adapter_guard.py), none defined twice; classes, bases and module-level statements by kind
+(imports, logger, classes; docstring, `_T`, the default `pint.UnitRegistry()`, `__all__`, defs) — nothing else is in the files -/
+theorem c02_glue_is_source_inventory : AdapterInventory ∧ UnitsInventory :=
+  ⟨adapter_inventory, units_inventory⟩
+
+open Cij.QhaGlue Generated.QhaGlue in
+/-- **the fields of the gap formula are the (T,V) fields on the adapter's own volume grid**.  Reading through the translated
+properties and `__init__`s (abstract object graph): the adapter's `v_array` and `volume_base.v_array` are the same attribute
+`finer_volumes_bohr3` of the ONE qha calculator `_load_qha_calculator` returns; `volume_base.heat_capacity` is its `cv_tv_au`,
+`volume_base.pressures` its `p_tv_au`, `t_array` its `temperature_array` (not the sample array), `ntv = len(v_array)` -/
+theorem c02_glue_is_source_fields :
+    readChain adapterModule adapterObj ["v_array"] = some (.attr qhaObj "finer_volumes_bohr3") ∧
+    readChain adapterModule adapterObj ["volume_base", "v_array"] = some (.attr qhaObj "finer_volumes_bohr3") ∧
+    readChain adapterModule adapterObj ["volume_base", "heat_capacity"] = some (.attr qhaObj "cv_tv_au") ∧
+    readChain adapterModule adapterObj ["volume_base", "pressures"] = some (.attr qhaObj "p_tv_au") ∧
+    readChain adapterModule adapterObj ["t_array"] = some (.attr qhaObj "temperature_array") ∧
+    readChain adapterModule adapterObj ["t_sample_array"] = some (.attr qhaObj "temperature_sample_array") ∧
+    readChain adapterModule adapterObj ["ntv"] = some (.len (.attr qhaObj "finer_volumes_bohr3")) ∧
+    GapFields := by
+  have h := gap_fields
+  exact ⟨h.2.1, h.2.2.1, h.2.2.2.1, h.2.2.2.2.1, h.2.2.2.2.2.1, h.2.2.2.2.2.2.2.2.1, h.2.2.2.2.2.2.2.2.2.1, h⟩
+
+open Cij.QhaGlue in
+/-- **objects and tables**: `calculator`, `volume_base_results`, `pressure_base_results` are assigned once, in `__init__` (every read of
+`volume_base` / `pressure_base` returns the object made at construction; `v2p` is `pass`); the property → attribute tables of
+`gen_adapter_spec` agree row by row with the object-graph reading -/
+theorem c02_glue_is_source_objects : ObjectsStable ∧ TablesAgree := ⟨objects_stable, tables_agree⟩
+
+open Cij.QhaGlue in
+/-- **which grid**: `_load_qha_calculator` calls `read_input(qha_input)` → `refine_grid()` → `desired_pressure_status()` on the calculator
+it returns (this translation and adapter_guard.py's agree), so the fields are those of the refined grid; cij's `Calculator` defines no
+`v_array` / `t_array` and delegates unknown attributes to `qha_calculator` (calc_src.py), and the non-shear classes read
+`self.calculator.v_array`, `.t_array`, `.qha_calculator` (nonshear_src.py) -/
+theorem c02_glue_is_source_grid :
+    loadCalls = Generated.adapterLoadCalls ∧
+    loadCalls = [("read_input", "qha_input"), ("refine_grid", ""), ("desired_pressure_status", "")] ∧ Delegation :=
+  ⟨load_calls_agree.1, load_calls_agree.2, delegation⟩
+
+open Cij.QhaGlue in
+/-- **`read_input`** (every ordered scalar type, `Float` included): the translated statements hand qha the file's five fields
+unchanged when `qha.tools.is_monotonic_decreasing(volumes)`, and raise RuntimeError otherwise -/
+theorem c02_glue_is_source_read_input {α : Type} [Sub α] [LE α] [DecidableLE α] [OfNat α 0] (vols : List α) :
+    runReadInput vols readInputBody [] =
+      some (if isMonotonicDecreasing vols then .ok fiveFields else .error "RuntimeError") :=
+  read_input_is_source vols
+
+open Cij.QhaGlue in
+/-- **volume blocks not in decreasing order are rejected** (the source's behaviour behind C13's "or is rejected"): over ℝ, ℚ, ℤ — any
+linearly ordered additive group — a list of volumes is accepted iff every volume is ≤ its predecessor, and one increase anywhere
+raises RuntimeError before anything is computed -/
+theorem c02_glue_is_source_volume_order {α : Type} [AddCommGroup α] [LinearOrder α] [IsOrderedAddMonoid α] (vols : List α) :
+    (runReadInput vols readInputBody [] = some (.ok fiveFields) ↔ ∀ i (h : i + 1 < vols.length), vols[i + 1] ≤ vols[i]) ∧
+    ((∃ i, ∃ h : i + 1 < vols.length, vols[i] < vols[i + 1]) → runReadInput vols readInputBody [] = some (.error "RuntimeError")) :=
+  read_input_accepts_iff vols
+
+open Cij.QhaGlue Generated.QhaGlue in
+/-- **`convert_unit`**: value form = `conv uFrom uTo v`, curried form = the function `conv uFrom uTo` (first argument the source unit),
+for every unit type and every `conv` standing for pint's `Quantity(x, u).to(u').magnitude` -/
+theorem c02_glue_is_source_convert_unit {U α : Type} (conv : U → U → α → α) (uFrom uTo : U) :
+    (∀ v : α, convertUnit.meaning conv uFrom uTo (some v) = some (.value (conv uFrom uTo v))) ∧
+    convertUnit.meaning conv uFrom uTo none = some (.function (conv uFrom uTo)) :=
+  convert_unit_is_source conv uFrom uTo
+
+open Cij.QhaGlue in
+/-- **the unit helpers**: the nine `_to_*` / `_from_*` convert between units of one SI dimension (ℤ-exponent vectors); the four
+`_from_x` are `_to_x` with source and target exchanged; C18's table of helpers is a sub-table of this one -/
+theorem c02_glue_is_source_helpers :
+    HelpersDimensional ∧ helperPairs.all pairInverse = true ∧ (∀ h ∈ Generated.staticUnitHelpers, h ∈ Generated.QhaGlue.unitHelpers) :=
+  ⟨helpers_dimensional, pairs_inverse, helpers_agree_with_static⟩
+
+open Cij.QhaGlue Cij.StaticSrc in
+/-- **`_to_gpa ∘ _from_gpa = id`** (and the three other pairs, both ways), for every value and whatever non-zero values pint gives
+the unit names -/
+theorem c02_glue_is_source_roundtrip (base : String → ℝ) (p : String × String) (hp : p ∈ helperPairs) (a b : UnitHelper)
+    (ha : helper? p.1 = some a) (hb : helper? p.2 = some b) (h1 : a.src.val base ≠ 0) (h2 : a.dst.val base ≠ 0) (v : ℝ) :
+    v * a.factor base * b.factor base = v ∧ v * b.factor base * a.factor base = v :=
+  pair_roundtrip base p hp a b ha hb h1 h2 v
+
+open Cij.QhaGlue in
+/-- **atomic units, consistently**: with `T` in K, `V` in bohr³, `C_V` in Ry/K, `P` in Ry/bohr³ (units of the qha fields the translated
+adapter hands over) and `k_B`, `h` in the target units of their translated conversions (Ry/K, Ry·cm; ω in cm⁻¹), the translated body
+of `isothermal_to_adiabatic` — and T·V·(∂P/∂T)²/C_V — is Ry/bohr³ as a monomial and M·L⁻¹·T⁻² as a dimension vector, the unit of
+`pressures` and the source unit of `_to_gpa`; so are `value_adiabatic`, `value_isothermal`, the zero-point and thermal bodies -/
+theorem c02_glue_is_source_units : GapUnits ∧ BodiesUnits := ⟨gap_units, bodies_units⟩
+
+open Cij.QhaGlue Cij.NSGlue in
+/-- **ħ and k_B**: `Q = (h/k_B)·ω/T` is dimensionless with `h_div_k` in K·cm, ω in cm⁻¹, `T` in K (monomials), every conversion of
+nonshear.py is between like dimensions, `k` is `_k` from eV/K to Ry/K, `h` is `_h` from J·m to Ry·cm; and as numbers: the translated
+`Q` does not change under a change of the units K and cm -/
+theorem c02_glue_is_source_hbar_kB (lam : String → ℝ) (hK : lam "K" ≠ 0) (hc : lam "cm" ≠ 0) (hdk T f : ℝ) :
+    QUnits ∧
+    evalQDef (Mono2.val lam (hdkUnit.getD []) * hdk) (Mono2.val lam ((chainUnit ["t_array"]).getD []) * T)
+        (Mono2.val lam freqUnit * f) Generated.NonShearGlue.qDef
+      = evalQDef hdk T f Generated.NonShearGlue.qDef :=
+  ⟨q_units, q_invariant lam hK hc hdk T f⟩
+
+open Cij.QhaGlue Cij.NSExpr in
+/-- **the bookkeeping as a statement about numbers**: change the units K, bohr, rydberg by any non-zero factors — `T`, `V`, `C_V`, `k_B`
+change by the values of the units the sources give them — and the translated gap changes by the value of Ry/bohr³, for every
+environment (spectrum, weights, grid point) -/
+theorem c02_glue_is_source_covariant (lam : String → ℝ) (hK : lam "K" ≠ 0) (hb : lam "bohr" ≠ 0) (hr : lam "rydberg" ≠ 0)
+    (e : SEnv ℝ) :
+    evalS (rescale lam "isothermal_to_adiabatic" e) Generated.nsGapLong.expr
+      = Mono2.val lam pressureAu * evalS e Generated.nsGapLong.expr ∧
+    evalS (rescale lam "isothermal_to_adiabatic" e) Generated.nsGapOff.expr
+      = Mono2.val lam pressureAu * evalS e Generated.nsGapOff.expr :=
+  gap_covariant lam hK hb hr e
+
+open Cij.QhaGlue in
+/-- non-vacuity: a decreasing list is accepted with the five fields, an increase is rejected; a helper pair exists -/
+example : runReadInput ([9, 7, 7, 4] : List Int) readInputBody [] = some (.ok fiveFields) ∧
+    runReadInput ([9, 7, 8, 4] : List Int) readInputBody [] = some (.error "RuntimeError") ∧
+    (∃ a b, helper? "_to_gpa" = some a ∧ helper? "_from_gpa" = some b) := by
+  refine ⟨by decide +kernel, by decide +kernel, _, _, rfl, rfl⟩
 
 /-! #### ties shared with other properties
 
